@@ -219,7 +219,15 @@ func baseLoadFile(L *LState) int {
 		}
 		defer reader.(*os.File).Close()
 	}
-	return loadaux(L, reader, chunkname)
+	// not loadaux: a file may start with a '#' line, which LoadFile and dofile skip
+	fn, err := L.loadFile(reader, chunkname)
+	if err != nil {
+		L.Push(LNil)
+		L.Push(LString(err.Error()))
+		return 2
+	}
+	L.Push(fn)
+	return 1
 }
 
 func baseLoadString(L *LState) int {
